@@ -16,6 +16,8 @@ CONSTANTS Objects,     \* e.g. {"o1","o2"}
                        \* {"Check","Example","GetAST","Len","Used","OpenAPI"}; the other kinds (JSON document, number,
                        \* regex schema, enum rule, literal guessing) have their own lists in SchemaApi_<kind>.cfg
           Registers,   \* BOOLEAN: can objects be registered as user types of one another (schemas only)?
+          Sharing,     \* BOOLEAN: may one object be the user type of several roots (a type shared by the schemas of a project)?
+          Plan,        \* "" or the name of a fixed assignment of contents to the objects (PlanContents)
           MaxCalls
 
 \* which contents fail, and where (known meaning of the catalogue texts)
@@ -40,7 +42,10 @@ Order == CHOOSE f \in [1..Cardinality(Objects) -> Objects] : \A i, j \in 1..Card
 NextFree == LET idx == {i \in 1..Cardinality(Objects) : content[Order[i]] = "none"} IN
             IF idx = {} THEN 0 ELSE CHOOSE i \in idx : \A j \in idx : i <= j
 
+\* "shared-heir": two roots, an heir type and its parent: the heir is complete on one root and not on the other
+PlanContents == IF Plan = "shared-heir" THEN <<"usesHeir", "heir", "usesHeir", "typeObj">> ELSE <<>>
 New(c) == /\ NextFree # 0
+          /\ (Plan # "" => c = PlanContents[NextFree])
           /\ LET o == Order[NextFree] IN
              /\ content' = [content EXCEPT ![o] = c]
              /\ Step([op |-> "New", obj |-> o, arg |-> c])
@@ -57,7 +62,8 @@ Call(op, o) == /\ content[o] # "none"
 AddType(o, t) == /\ Registers
                  /\ content[o] # "none" /\ content[t] # "none" /\ o # t
                  /\ o \notin frozen
-                 /\ \A x \in Objects : t \notin regs[x]      \* one object is the type of at most one root
+                 /\ (Sharing \/ \A x \in Objects : t \notin regs[x])      \* without Sharing one object is the type of at most one root
+                 /\ t \notin regs[o]
                  /\ regs[t] = {}                              \* and types of types are not nested here:
                  /\ \A x \in Objects : o \notin regs[x]      \*   a root is not itself somebody's type
                  /\ regs' = [regs EXCEPT ![o] = @ \cup {t}]
